@@ -7,8 +7,8 @@
      4  C05 monitor on the implementation: Go decoded something other than the
         (canonical form of the) value it encoded
      31 as 3, but the only difference is the universal tag of a character string
-        that has no string-type parameter                  (known-finding class)
-     41 as 4, for a type/params using EXPLICIT tagging   (known-finding class)
+        that has no string-type parameter (repaired in /repo; reported as a violation)
+     41 as 4, for a type/params using EXPLICIT tagging (repaired in /repo; reported as a violation)
      5  C04: Go marshal panicked
      90 (not a mismatch) a marshalled value outside the hypotheses [ok] of C05_roundtrip, type or
         parameters using EXPLICIT tagging; 92 likewise, for any other reason
